@@ -46,6 +46,8 @@ vector<double> NumCalcApplicationTools::getVector(const std::string& desc)
 
   if (desc.substr(0, 3) == "seq") // Bounds specified as sequence
   {
+    if (desc.size() < 5)
+      throw Exception("Unvalid sequence specification: " + desc);
     map<string, string> keyvals;
     KeyvalTools::multipleKeyvals(desc.substr(4, desc.size() - 5), keyvals);
     if (keyvals.find("from") == keyvals.end())
